@@ -4,7 +4,10 @@ import Dashu.Model.Float.Repr
   ceil, floor, round}`), `float/src/convert.rs` (`FBig::with_precision`, `FBig::to_int`,
   `Repr::to_int`) and `rational/src/round.rs` (core Lean only).
 
-  An `FBig` is `(repr, precision)`; results carry the precision the code assigns.
+  An `FBig` is `(repr, precision)`; results carry the precision the code assigns.  The shortcuts taken
+  when the estimate `smaller_than_one` fires return the value AND the context of the general path
+  (proposed_fixes/c10-roundops-estimate-observable.diff), so the estimate is not observable
+  (`Props/C10.lean` `estimate_unobservable`).
   `dub` is the `digits_ub` estimate oracle (`Repr::smaller_than_one` is `exp + digits_ub < -1`).
 -/
 namespace Dashu.Model.Float
@@ -24,10 +27,10 @@ def smallerThanOne (dub : Int → Nat) (r : FRepr) : Bool := decide (r.exp + (du
 /-- `FBig::trunc` -/
 def fTrunc (B : Nat) (dub : Int → Nat) (x : FBigM) : FBigM :=
   if x.repr.exp ≥ 0 then x
-  else if smallerThanOne dub x.repr then FBigM.zero
   else
     let shift := (-x.repr.exp).toNat
-    ⟨FRepr.new B (shrDigits B x.repr.signif shift) 0, x.prec - shift⟩
+    if smallerThanOne dub x.repr then ⟨⟨0, 0⟩, x.prec - shift⟩
+    else ⟨FRepr.new B (shrDigits B x.repr.signif shift) 0, x.prec - shift⟩
 
 /-- `FBig::split_at_point_internal` (`exp < 0`): `(integral, fractional, fraction digits)`; for a
     number known to be `< 1` all digits are fractional and there are `-exponent` of them. -/
@@ -42,16 +45,18 @@ def splitAtPointInternal (B : Nat) (dub : Int → Nat) (x : FBigM) : Int × Int 
 /-- `FBig::split_at_point` -/
 def fSplitAtPoint (B : Nat) (dub : Int → Nat) (x : FBigM) : FBigM × FBigM :=
   if x.repr.exp ≥ 0 then (x, FBigM.zero)
-  else if smallerThanOne dub x.repr then (FBigM.zero, x)
   else
     let shift := (-x.repr.exp).toNat
-    let hl := splitDigits B x.repr.signif shift
-    (⟨FRepr.new B hl.1 0, x.prec - shift⟩, ⟨FRepr.new B hl.2 x.repr.exp, shift⟩)
+    if smallerThanOne dub x.repr then (⟨⟨0, 0⟩, x.prec - shift⟩, ⟨x.repr, shift⟩)
+    else
+      let hl := splitDigits B x.repr.signif shift
+      (⟨FRepr.new B hl.1 0, x.prec - shift⟩, ⟨FRepr.new B hl.2 x.repr.exp, shift⟩)
 
-/-- `FBig::fract` (a number known to be `< 1` is its own fractional part) -/
+/-- `FBig::fract` (a number known to be `< 1` is its own fractional part, with the context the general
+    path gives: the number of fractional digits) -/
 def fFract (B : Nat) (dub : Int → Nat) (x : FBigM) : FBigM :=
   if x.repr.exp ≥ 0 then FBigM.zero
-  else if smallerThanOne dub x.repr then x
+  else if smallerThanOne dub x.repr then ⟨x.repr, (-x.repr.exp).toNat⟩
   else
     let s := splitAtPointInternal B dub x
     ⟨FRepr.new B s.2.1 x.repr.exp, s.2.2⟩
@@ -59,7 +64,8 @@ def fFract (B : Nat) (dub : Int → Nat) (x : FBigM) : FBigM :=
 /-- `FBig::ceil` -/
 def fCeil (B : Nat) (c : Coarse) (dub : Int → Nat) (x : FBigM) : FBigM :=
   if x.repr.isZero ∨ x.repr.exp ≥ 0 then x
-  else if smallerThanOne dub x.repr then (if x.repr.signif ≥ 0 then FBigM.one else FBigM.zero)
+  else if smallerThanOne dub x.repr then
+    (if x.repr.signif ≥ 0 then ⟨⟨1, 0⟩, x.prec - (-x.repr.exp).toNat⟩ else ⟨⟨0, 0⟩, x.prec - (-x.repr.exp).toNat⟩)
   else
     let s := splitAtPointInternal B dub x
     let r := roundFract B .up c s.1 s.2.1 s.2.2
@@ -68,7 +74,8 @@ def fCeil (B : Nat) (c : Coarse) (dub : Int → Nat) (x : FBigM) : FBigM :=
 /-- `FBig::floor` -/
 def fFloor (B : Nat) (c : Coarse) (dub : Int → Nat) (x : FBigM) : FBigM :=
   if x.repr.exp ≥ 0 then x
-  else if smallerThanOne dub x.repr then (if x.repr.signif ≥ 0 then FBigM.zero else FBigM.negOne)
+  else if smallerThanOne dub x.repr then
+    (if x.repr.signif ≥ 0 then ⟨⟨0, 0⟩, x.prec - (-x.repr.exp).toNat⟩ else ⟨⟨-1, 0⟩, x.prec - (-x.repr.exp).toNat⟩)
   else
     let s := splitAtPointInternal B dub x
     let r := roundFract B .down c s.1 s.2.1 s.2.2
@@ -77,7 +84,7 @@ def fFloor (B : Nat) (c : Coarse) (dub : Int → Nat) (x : FBigM) : FBigM :=
 /-- `FBig::round` (ties away from zero) -/
 def fRound (B : Nat) (c : Coarse) (dub : Int → Nat) (x : FBigM) : FBigM :=
   if x.repr.exp ≥ 0 then x
-  else if x.repr.exp + (dub x.repr.signif : Int) < -2 then FBigM.zero
+  else if x.repr.exp + (dub x.repr.signif : Int) < -2 then ⟨⟨0, 0⟩, x.prec - (-x.repr.exp).toNat⟩
   else
     let s := splitAtPointInternal B dub x
     let r := roundFract B .halfAway c s.1 s.2.1 s.2.2
@@ -99,7 +106,7 @@ def reprToInt (B : Nat) (dub : Int → Nat) (r : FRepr) : Rounded Int :=
 
 /-- `FBig::with_precision` -/
 def fWithPrecision (B : Nat) (m : Mode) (c : Coarse) (x : FBigM) (p : Nat) : Rounded FBigM :=
-  if x.prec > p then
+  if x.prec > p ∨ (x.prec = 0 ∧ p > 0) then
     let r := reprRound B m c p x.repr
     (⟨r.1, p⟩, r.2)
   else (⟨x.repr, p⟩, none)
